@@ -45,6 +45,8 @@ func init() {
 			need(m, &out, "reentrant_overlaps", 100)
 			need(m, &out, "history_independence_checks", 300)
 			need(m, &out, "muxers_in_lockstep", 100)
+			need(m, &out, "scribbled_runs", 200)
+			need(m, &out, "size_boundary_alias_runs", 10)
 			return out
 		},
 	})
@@ -102,6 +104,36 @@ func runC16(c *mon.Ctx) {
 		c.Max("long_stream_packets", int64(len(s1.Packets)))
 		c.Case(mon.HashBytes("alias-long", s1.Bytes[:1880]), true)
 	}
+	// units whose reassembled size sits on an allocation / pool size-class boundary (2^k and its neighbours, up to 128 KiB)
+	nsz := c.Pick(24, 400)
+	for i := int64(0); i < nsz; i++ {
+		if !c.Mine("alias-size", i) {
+			continue
+		}
+		r := c.Rng("alias-size", i)
+		k := 10 + int(i)%8 // 1 KiB .. 128 KiB
+		total := 1<<uint(k) + []int{0, -1, 1}[int(i/8)%3]
+		hdr := 9 + 5 // PES header with a PTS
+		var us []*gen.Unit
+		us = append(us, gen.NewPESUnit(r, 0x100, 1, gen.PESOpts{DataLen: 40 + r.IntN(100), Unbounded: true, WithPTS: true}))
+		us = append(us, gen.NewPESUnit(r, 0x100, 2, gen.PESOpts{DataLen: total - hdr, Unbounded: true, WithPTS: true}))
+		for q := 0; q < 3; q++ {
+			us = append(us, gen.NewPESUnit(r, 0x100, 3+q, gen.PESOpts{DataLen: 100 + r.IntN(3000), Unbounded: q%2 == 0, WithPTS: true}))
+		}
+		n := 0
+		for _, u := range us {
+			if len(u.Plan) == 0 {
+				u.PlanChunks(gen.RandomChunks(r, len(u.Payload), 0, 0, false))
+			}
+			n += len(u.Plan)
+		}
+		s1 := gen.Mux(map[uint16][]*gen.Unit{0x100: us}, repeatPID(0x100, n), nil)
+		s2 := richStream(r)
+		aliasCase(c, i, r, s1, s2, []string{"data", "packet"}[i%2])
+		c.Count("size_boundary_alias_runs")
+		c.Max("largest_unit_bytes", int64(len(us[1].Payload)))
+		c.Case(mon.HashBytes("alias-size", s1.Bytes[:376]), true)
+	}
 	nm := c.Pick(150, 20000)
 	for i := int64(0); i < nm; i++ {
 		if !c.Mine("mux-alias", i) {
@@ -127,6 +159,16 @@ func runC16(c *mon.Ctx) {
 
 // digests runs a Demuxer to the end and returns one digest per result (or error).
 func digests(dmx *astits.Demuxer, api string, limit int) []string {
+	return digestsScribbling(dmx, api, limit, false)
+}
+
+// digestsScribbling is digests; with scribble every result is overwritten (mon.Scribble) as soon as its digest is taken, the way an
+// application edits what it was given.
+func digestsScribbling(dmx *astits.Demuxer, api string, limit int, scribble bool) []string {
+	return digestsMode(dmx, api, limit, scribble, scribble)
+}
+
+func digestsMode(dmx *astits.Demuxer, api string, limit int, scribble, strip bool) []string {
 	var out []string
 	for k := 0; k < limit; k++ {
 		var v any
@@ -143,7 +185,16 @@ func digests(dmx *astits.Demuxer, api string, limit int) []string {
 			out = append(out, "err:"+err.Error())
 			continue
 		}
+		if d, ok := v.(*astits.DemuxerData); ok && strip {
+			// the sections of one unit share their FirstPacket by design: it is left out of this comparison and not edited
+			d2 := *d
+			d2.FirstPacket = nil
+			v = &d2
+		}
 		out = append(out, deepString(v))
+		if scribble {
+			mon.Scribble(v)
+		}
 	}
 	return out
 }
@@ -227,6 +278,29 @@ func overlapCase(c *mon.Ctx, idx int64, r *rand.Rand) {
 		c.Count("history_independence_checks")
 		if d := firstDifference(solo(p, true, 1<<20), before[k]); d != "" {
 			c.Violate("C16/history/result-depends-on-earlier-instances:"+api, "overlap", idx, fmt.Sprintf("input of %d bytes, new Demuxer after other instances have worked vs before: %s", len(p), d), data)
+			break
+		}
+	}
+	// (c) an application that edits every result it is given (all fields, all bytes): what the library returns afterwards, to this
+	// Demuxer and to a new one, is what it returns to an application that only reads
+	rich := richStream(r).Bytes
+	for _, in := range [][]byte{a, rich} {
+		want := digestsMode(astits.NewDemuxer(context.Background(), bytes.NewReader(in), astits.DemuxerOptPacketSize(188)), api, len(in)+64, false, true)
+		var got, again []string
+		if pn, v, st := mon.Guarded(func() {
+			got = digestsScribbling(astits.NewDemuxer(context.Background(), bytes.NewReader(in), astits.DemuxerOptPacketSize(188)), api, len(in)+64, true)
+			again = digestsMode(astits.NewDemuxer(context.Background(), bytes.NewReader(in), astits.DemuxerOptPacketSize(188)), api, len(in)+64, false, true)
+		}); pn {
+			c.Violate("C16/scribble/panic", "overlap", idx, fmt.Sprintf("%v\n%s", v, st), data)
+			break
+		}
+		c.Count("scribbled_runs")
+		if d := firstDifference(got, want); d != "" {
+			c.Violate("C16/scribble/later-results-depend-on-edits-of-earlier-ones:"+api, "overlap", idx, "same Demuxer, results overwritten by the application as they arrive, vs untouched: "+d, map[string]any{"api": api, "stream": mon.Hex(in, 1500)})
+			break
+		}
+		if d := firstDifference(again, want); d != "" {
+			c.Violate("C16/scribble/later-instances-depend-on-edits-of-earlier-results:"+api, "overlap", idx, "new Demuxer after another one's results were overwritten, vs before: "+d, map[string]any{"api": api, "stream": mon.Hex(in, 1500)})
 			break
 		}
 	}
